@@ -242,7 +242,7 @@ class MSGate(cirq.Gate):
         return cirq.obj_to_dict_helper(self, ['phi0', 'phi1', 'theta'])
 
     def _value_equality_values_(self) -> Any:
-        return (self.phi0, self.phi1)
+        return (self.phi0, self.phi1, self.theta)
 
     def __pow__(self, power):
         if power == 1:
